@@ -147,6 +147,12 @@ def _openNormalKlattgrid(data: str) -> Klattgrid:
             "frication_formants",
         ]:
             kct = _proccessContainerTierInput(sectionData, name)
+            # A container with no subtiers (e.g. 0 formants) cannot take
+            # its time span from them; use the span in its own header
+            if kct.minTimestamp is None:
+                kct.minTimestamp = minT
+            if kct.maxTimestamp is None:
+                kct.maxTimestamp = maxT
             kg.addTier(kct)
 
         else:
@@ -210,6 +216,9 @@ def _proccessContainerTierInput(sectionData: str, name: str):
     for indexList in indexListOfLists:
         if indexList == []:
             continue
+        # The intermediate tier is named in its 'name: size = n' header line
+        # (there are no subtiers to take the name from when n is 0)
+        kitName = sectionData[max(indexList[0], 0) :].strip().split(":", 1)[0]
         tierList = []
         for j in range(len(indexList) - 1):
             try:
@@ -222,7 +231,7 @@ def _proccessContainerTierInput(sectionData: str, name: str):
             entries = _buildEntries(subTuple)
             tier = KlattSubPointTier(subName, entries, subMin, subMax)
             tierList.append(tier)
-        kit = KlattIntermediateTier(subName.split()[0])
+        kit = KlattIntermediateTier(kitName)
         for tier in tierList:
             kit.addTier(tier)
         kct.addTier(kit)
